@@ -104,7 +104,7 @@ JudgeC16(e) ==
       dups == { d \in defined : Cardinality({ i \in 1..Len(ns) : defs[i] = d }) >= 2 }
       \* the labels a statement names, read off the parsed statement itself (not the implementation's
       \* jumps_to / calls_to / reads_address_of, which are part of what is being judged)
-      used == { ns[i].lab : i \in { j \in 1..Len(ns) : ns[j].k \in {"JumpLink", "Branch", "LoadAddr"} } } \ {"", "__return__"}
+      used == { ns[i].lab : i \in { j \in 1..Len(ns) : ns[j].k \in {"JumpLink", "Branch", "LoadAddr"} } } \ {"", "<return>"}
       undef == used \ defined
       c == e.case
       cond == IF undef # {} THEN "undefined-label" ELSE IF dups # {} THEN "duplicate-label"
